@@ -384,6 +384,9 @@ func (u *ModelUpdates) addMutateOperation(dbModel model.DatabaseModel, table, uu
 			return err
 		}
 
+		if intMutationOverflows(current, mutation.Mutator, nativeValue) {
+			return &ovsdb.RangeError{}
+		}
 		newValue, diff := mutate(current, mutation.Mutator, nativeValue)
 		// RFC 7047 5.2.4: a result that can not be represented is a range error
 		if !isFinite(newValue) {
@@ -546,4 +549,44 @@ func isFinite(value interface{}) bool {
 		}
 	}
 	return true
+}
+
+// intMutationOverflows tells whether the result of an arithmetic mutation of
+// an integer, or of an element of a set of integers, is outside of the range
+// of a 64 bit integer (RFC 7047 5.2.4, "range error")
+func intMutationOverflows(current interface{}, mutator ovsdb.Mutator, value interface{}) bool {
+	b, ok := value.(int)
+	if !ok {
+		return false
+	}
+	overflows := func(a int) bool {
+		switch mutator {
+		case ovsdb.MutateOperationAdd:
+			return (b > 0 && a > math.MaxInt64-b) || (b < 0 && a < math.MinInt64-b)
+		case ovsdb.MutateOperationSubtract:
+			return (b < 0 && a > math.MaxInt64+b) || (b > 0 && a < math.MinInt64+b)
+		case ovsdb.MutateOperationMultiply:
+			if a == 0 || b == 0 {
+				return false
+			}
+			if (a == -1 && b == math.MinInt64) || (b == -1 && a == math.MinInt64) {
+				return true
+			}
+			return (a*b)/b != a
+		case ovsdb.MutateOperationDivide:
+			return a == math.MinInt64 && b == -1
+		}
+		return false
+	}
+	switch a := current.(type) {
+	case int:
+		return overflows(a)
+	case []int:
+		for _, e := range a {
+			if overflows(e) {
+				return true
+			}
+		}
+	}
+	return false
 }
